@@ -151,8 +151,10 @@ pub fn hist_case(g: G, mutate: bool) -> BoxedStrategy<HistCase> {
 }
 
 pub fn property() -> Property {
-    let g = G::default();
-    let g2 = G::default();
+    // ids / anchor names: fragment markers exist only in the line-oriented routes and must not
+    // make them differ from the string routes
+    let g = G::default().with_ids();
+    let g2 = G::default().with_ids();
     Property {
         id: "C10",
         level: "exploration",
